@@ -668,3 +668,267 @@ func isRangeIndex(v ssa.Value) bool {
 	}
 	return false
 }
+
+// sliceIdentity looks through the cell a captured variable lives in (also from inside the
+// closure that captured it) when the cell is written exactly once.
+func sliceIdentity(v ssa.Value) ssa.Value {
+	for depth := 0; depth < 6; depth++ {
+		v = unwrap(v)
+		ld, ok := v.(*ssa.UnOp)
+		if !ok || ld.Op != token.MUL {
+			return v
+		}
+		var cell *ssa.Alloc
+		switch x := ld.X.(type) {
+		case *ssa.Alloc:
+			cell = x
+		case *ssa.FreeVar:
+			cell, _ = freeVarBinding(x).(*ssa.Alloc)
+		}
+		if cell == nil {
+			return v
+		}
+		sts := storesTo(cell)
+		if len(sts) != 1 {
+			return v
+		}
+		v = sts[0].Val
+	}
+	return v
+}
+
+// freeVarBinding: the value the enclosing function binds to a closure's free variable.
+func freeVarBinding(fv *ssa.FreeVar) ssa.Value {
+	f := fv.Parent()
+	if f == nil || f.Parent() == nil {
+		return nil
+	}
+	idx := -1
+	for i, x := range f.FreeVars {
+		if x == fv {
+			idx = i
+		}
+	}
+	for _, ins := range allInstrs(f.Parent()) {
+		if mc, ok := ins.(*ssa.MakeClosure); ok && mc.Fn == ssa.Value(f) && idx >= 0 && idx < len(mc.Bindings) {
+			return mc.Bindings[idx]
+		}
+	}
+	return nil
+}
+
+// loMapSource: f is the callback of a lo.Map(src, f) call in its parent; returns src.
+func loMapSource(f *ssa.Function) ssa.Value {
+	if f.Parent() == nil {
+		return nil
+	}
+	for _, ins := range allInstrs(f.Parent()) {
+		c, ok := ins.(*ssa.Call)
+		if !ok || !strings.HasPrefix(calleeName(&c.Call), "github.com/samber/lo.Map") || strings.HasPrefix(calleeName(&c.Call), "github.com/samber/lo.MapTo") || len(c.Call.Args) != 2 {
+			continue
+		}
+		if strings.TrimPrefix(strings.SplitN(calleeName(&c.Call), "[", 2)[0], "github.com/samber/lo.") != "Map" {
+			continue
+		}
+		fv := c.Call.Args[1]
+		if mc, ok := fv.(*ssa.MakeClosure); ok {
+			fv = mc.Fn
+		}
+		if fv == ssa.Value(f) {
+			return c.Call.Args[0]
+		}
+	}
+	return nil
+}
+
+// fieldOfParam: v reads field fld of the struct-typed parameter p.
+func fieldOfParam(v ssa.Value, p *ssa.Parameter, fld *types.Var) bool {
+	switch x := v.(type) {
+	case *ssa.Field:
+		return x.X == ssa.Value(p) && fieldOfVal(x) == fld
+	case *ssa.UnOp:
+		if x.Op != token.MUL {
+			return false
+		}
+		fa, ok := x.X.(*ssa.FieldAddr)
+		if !ok || fieldOf(fa) != fld {
+			return false
+		}
+		al, ok := fa.X.(*ssa.Alloc)
+		if !ok {
+			return false
+		}
+		sts := storesTo(al)
+		return len(sts) == 1 && sts[0].Val == ssa.Value(p)
+	}
+	return false
+}
+
+// fanout: how the per-element function of an AsyncMapReduce call gets at "its" element of the
+// list and at the index of that element.
+type fanout struct {
+	isIndex func(v ssa.Value) bool // v (in the map function) is the index of the element
+	isURL   func(v ssa.Value) bool // v (in the map function) is the element itself
+}
+
+// fanoutOver recognises a fan-out that visits every index of the parameter list once:
+// lo.Range(len(list)) with list[i] read inside, or lo.Map(list, func(u, i) T{…u…i…}) whose
+// struct keeps element and index in two fields.
+func fanoutOver(fn *ssa.Function, call *ssa.Call, mapF *ssa.Function, list *ssa.Parameter) *fanout {
+	if len(mapF.Params) != 1 {
+		return nil
+	}
+	p := mapF.Params[0]
+	pc, ok := unwrap(call.Call.Args[0]).(*ssa.Call)
+	if !ok {
+		return nil
+	}
+	name := strings.SplitN(calleeName(&pc.Call), "[", 2)[0]
+	switch {
+	case name == "github.com/samber/lo.Range" && len(pc.Call.Args) == 1:
+		lc, ok := pc.Call.Args[0].(*ssa.Call)
+		if !ok {
+			return nil
+		}
+		if b, ok := lc.Call.Value.(*ssa.Builtin); !ok || b.Name() != "len" || !isUntouchedParam(fn, lc.Call.Args[0], list) {
+			return nil
+		}
+		return &fanout{
+			isIndex: func(v ssa.Value) bool { return v == ssa.Value(p) },
+			isURL: func(v ssa.Value) bool {
+				ld, ok := v.(*ssa.UnOp)
+				if !ok || ld.Op != token.MUL {
+					return false
+				}
+				ia, ok := ld.X.(*ssa.IndexAddr)
+				return ok && ia.Index == ssa.Value(p) && sliceIdentity(ia.X) == ssa.Value(list)
+			},
+		}
+	case name == "github.com/samber/lo.Map" && len(pc.Call.Args) == 2:
+		if !isUntouchedParam(fn, pc.Call.Args[0], list) {
+			return nil
+		}
+		fv := pc.Call.Args[1]
+		if mc, ok := fv.(*ssa.MakeClosure); ok {
+			fv = mc.Fn
+		}
+		g, ok := fv.(*ssa.Function)
+		if !ok || len(g.Params) != 2 || g.Blocks == nil {
+			return nil
+		}
+		var fu, fi *types.Var
+		for _, ins := range allInstrs(g) {
+			st, ok := ins.(*ssa.Store)
+			if !ok {
+				continue
+			}
+			fa, ok := st.Addr.(*ssa.FieldAddr)
+			if !ok || fieldOf(fa) == nil {
+				continue
+			}
+			switch unwrap(st.Val) {
+			case ssa.Value(g.Params[0]):
+				fu = fieldOf(fa)
+			case ssa.Value(g.Params[1]):
+				fi = fieldOf(fa)
+			}
+		}
+		if fu == nil || fi == nil {
+			return nil
+		}
+		return &fanout{
+			isIndex: func(v ssa.Value) bool { return fieldOfParam(v, p, fi) },
+			isURL:   func(v ssa.Value) bool { return fieldOfParam(v, p, fu) },
+		}
+	}
+	return nil
+}
+
+// fanoutIndexOf is fanoutOver for callers that only need the index test (R9b).
+func fanoutIndexOf(fn *ssa.Function, call *ssa.Call, mapF *ssa.Function) func(v ssa.Value) bool {
+	for _, p := range fn.Params {
+		if _, ok := p.Type().Underlying().(*types.Slice); ok {
+			if fo := fanoutOver(fn, call, mapF, p); fo != nil {
+				return fo.isIndex
+			}
+		}
+	}
+	return nil
+}
+
+// checkIntrospectionOrder: the results are put into ascending order of the carried index, and
+// what is returned is that list mapped element by element.
+func (r *Run) checkIntrospectionOrder(rule string, irs *ssa.Function, call *ssa.Call, carried *types.Var) {
+	var res ssa.Value
+	for _, ref := range *call.Referrers() {
+		if ex, ok := ref.(*ssa.Extract); ok && ex.Index == 0 {
+			res = ex
+		}
+	}
+	if res == nil {
+		return
+	}
+	readsCarried := func(v ssa.Value, p *ssa.Parameter, other *ssa.Parameter) bool {
+		ld, ok := v.(*ssa.UnOp)
+		if !ok || ld.Op != token.MUL {
+			return false
+		}
+		fa, ok := ld.X.(*ssa.FieldAddr)
+		return ok && fieldOf(fa) == carried && dependsOn(v, p) && !dependsOn(v, other)
+	}
+	for _, ins := range allInstrs(irs) {
+		ci, ok := ins.(ssa.CallInstruction)
+		if !ok {
+			continue
+		}
+		kind, isSort := isSortCall(ci.Common())
+		if !isSort || kind != "less" || len(ci.Common().Args) < 2 || sliceIdentity(unwrap(ci.Common().Args[0])) != res {
+			continue
+		}
+		fs, _ := r.P.CG.funcValues(ci.Common().Args[1], map[ssa.Value]bool{})
+		if len(fs) != 1 || len(fs[0].Params) != 2 {
+			continue
+		}
+		less := fs[0]
+		asc, known := true, true
+		for _, ret := range returnsOf(less) {
+			bo, ok := retVals(ret)[0].(*ssa.BinOp)
+			if !ok {
+				known = false
+				continue
+			}
+			a, b := less.Params[0], less.Params[1]
+			switch {
+			case (bo.Op == token.LSS || bo.Op == token.LEQ) && readsCarried(bo.X, a, b) && readsCarried(bo.Y, b, a):
+			case (bo.Op == token.GTR || bo.Op == token.GEQ) && readsCarried(bo.X, b, a) && readsCarried(bo.Y, a, b):
+			case (bo.Op == token.LSS || bo.Op == token.LEQ) && readsCarried(bo.X, b, a) && readsCarried(bo.Y, a, b),
+				(bo.Op == token.GTR || bo.Op == token.GEQ) && readsCarried(bo.X, a, b) && readsCarried(bo.Y, b, a):
+				asc = false
+			default:
+				known = false
+			}
+		}
+		if known {
+			r.Check(asc, rule, fnName(irs), "results in ascending order of the carried index", r.P.pos(ci.Pos()),
+				"less(i, j) is index(i) < index(j): result k is the schema of URL k",
+				"the introspection results are sorted by the carried index in descending order: schemas[i] is the schema of urls[n-1-i], and NewGateway records every service's fields under another service's URL")
+		}
+	}
+	// what is returned
+	for _, ret := range returnsOf(irs) {
+		vals := retVals(ret)
+		if len(vals) == 0 || isNilConst(unwrap(vals[0])) {
+			continue
+		}
+		good := false
+		if c, ok := unwrap(vals[0]).(*ssa.Call); ok && strings.SplitN(calleeName(&c.Call), "[", 2)[0] == "github.com/samber/lo.Map" && len(c.Call.Args) == 2 {
+			good = sliceIdentity(c.Call.Args[0]) == res
+		}
+		if sliceIdentity(vals[0]) == res {
+			good = true
+		}
+		r.Check(good, rule, fnName(irs), "the result is the ordered list, element by element", r.P.pos(retPos(ret)),
+			"the returned list is lo.Map over the ordered results: as long as the URL list, position k for URL k",
+			"what IntrospectRemoteSchemas returns is no longer the ordered result list mapped one to one (elements are dropped, de-duplicated or re-arranged afterwards): with fewer schemas than URLs, or in another order, NewGateway pairs a schema with another service's URL")
+	}
+}
